@@ -936,6 +936,22 @@ def _():
         rows.append(f'{tag}.last:' + type(br.body[-1]).__name__)
     return G.emit_strings('o_dropped_branch', rows, 'residual stacks: the branch taken for a dropped layer (statements, names read, last statement)')
 
+# flags a residual stack caches at construction and tests in its forward: each must be the constructor argument itself (or the documented expression).
+# Seeds C03-i / C11-i turned `self.shared_codebook = shared_codebook` into `... and num_quantizers > 1`: no forward changes, the stack just never
+# takes its shared end-of-step branch.
+@item('p_rvq_flags')
+def _():
+    rows = []
+    want = ('shared_codebook', 'quantize_dropout', 'quantize_dropout_cutoff_index', 'quantize_dropout_multiple_of', 'num_quantizers', 'uniform_codebook_size', 'implicit_neural_codebook')
+    func = find_func(RVQ, 'ResidualVQ.__init__')
+    for n in ast.walk(func):
+        if isinstance(n, ast.Assign) and len(n.targets) == 1 and isinstance(n.targets[0], ast.Attribute) and isinstance(n.targets[0].value, ast.Name) and n.targets[0].value.id == 'self' and n.targets[0].attr in want:
+            rows.append((n.lineno, f'ResidualVQ.__init__:self.{n.targets[0].attr} = ' + ast.unparse(n.value).replace('\n', ' ')))
+    if not any('self.shared_codebook' in r for _, r in rows):
+        raise GenError('ResidualVQ.__init__: no assignment to self.shared_codebook')
+    rows.sort()
+    return G.emit_strings('p_rvq_flags', [r for _, r in rows], 'ResidualVQ.__init__: flags cached at construction (pinned)')
+
 
 # einops patterns (G3)
 for name, fname, qual in (('pat_vq_forward', VQ, 'VectorQuantize.forward'), ('pat_vq_split', VQ, 'VectorQuantize.maybe_split_heads_from_input'),
